@@ -155,7 +155,7 @@ theorem DK.brkText {inpS inpW : Bytes} {δ d : Nat} (F : Frame inpS inpW δ) (hc
   | true =>
     rw [hft] at hh
     simp only [if_true] at hh
-    rcases produceText_desc ⟨E, hcl⟩ ds inpS ⟨pc, ⟨a, c⟩, some (.text tt)⟩ tt with hp | ⟨rawb, a0, a1, a2, a3, a4, a5, a6, a7, a8, a9, a10, a11, a12, a13, a14⟩
+    rcases produceText_desc hcl ds (h.dom hcl).1 inpS ⟨pc, ⟨a, c⟩, some (.text tt)⟩ tt with hp | ⟨rawb, a0, a1, a2, a3, a4, a5, a6, a7, a8, a9, a10, a11, a12, a13, a14⟩
     · rw [hh] at hp; exact hp.elim
     rw [hh] at a2 a3 a4 a5 a6 a7 a8 a9 a10 a11 a12 a13 a14
     simp only at a0 a1 a3 a4 a5 a6 a7 a8 a9 a10 a11 a12 a13 a14
@@ -207,7 +207,7 @@ theorem DK.brkText {inpS inpW : Bytes} {δ d : Nat} (F : Frame inpS inpW δ) (hc
       have h1 := hcl.text_cong _ _ rawb tt false ⟨pc + a, pc + c⟩ hc
       have hlen1 : (LolHtml.slice inpW (a + δ - d) (a + δ)).length = d := by
         rw [slice_length inpW (by omega)]; omega
-      have h2 := hcl.text_split dw.ctl (LolHtml.slice inpW (a + δ - d) (a + δ)) rawb tt false (pc + a - d)
+      have h2 := hcl.text_split dw.ctl (LolHtml.slice inpW (a + δ - d) (a + δ)) rawb tt false (pc + a - d) (hcl.dom_tok _ _ (hcl.dom _ _ k.ctl).2)
       rw [hlen1, hlenb] at h2
       have e1 : pc + a - d + d = pc + a := by omega
       have e2 : pc + a + (c - a) = pc + c := by omega
